@@ -19,6 +19,13 @@
 (*   RogueW     the same against the weighted sum: with the coefficients   *)
 (*              c_i computed for a placeholder last key, the last key is   *)
 (*              (X - sum c_i A_i) / c_last  (one fixed-point iteration)    *)
+(*   RogueC     key cancellation with the coefficient folded in: the key   *)
+(*              at index ri of the signing list is  X - sum of the OTHER   *)
+(*              selected keys (one or several victims), and the signature  *)
+(*              is an ordinary one under the scalar  coef(rc) * x, where   *)
+(*              coef(rc) is the weighting coefficient the verifier itself  *)
+(*              computes for the selected index rc.  It can verify only if *)
+(*              all selected keys share one coefficient.                   *)
 (* A case c:                                                               *)
 (*   n      number of keys (indices 0..n-1, index n is outside)            *)
 (*   ss     signing list (strictly increasing, inside the vector)          *)
@@ -26,10 +33,11 @@
 (*   sig    kind of the signature                                          *)
 (*   vmsg   "same" | "other"                                               *)
 (*   vkeys  [op, i, j]: same | swap i j | replace i | truncate | extend    *)
+(*   ri, rc abstract indices used by the RogueC kind (0 otherwise)         *)
 (***************************************************************************)
 EXTENDS Integers, Sequences, FiniteSets
 
-SigKinds == {"Good", "TamperedR", "TamperedS", "NonCanonS", "Garbage", "Plain", "Rogue", "RogueW"}
+SigKinds == {"Good", "TamperedR", "TamperedS", "NonCanonS", "Garbage", "Plain", "Rogue", "RogueW", "RogueC"}
 
 Foreign == 100
 Extra   == 101
@@ -62,6 +70,14 @@ AggVerifyOK(c) ==
     /\ c.vmsg = "same"
     /\ Transcript(vk, c.vs) = Transcript([k \in 1 .. c.n |-> k - 1], c.ss)
 
+\* The weighting coefficient of a signer is a hash of the whole transcript AND of the signer's own
+\* (index, key) pair; symbolically an injective term.  Structural statement: two different (index, key)
+\* pairs of one signer set never share a coefficient -- this is what defeats key cancellation.
+Coef(tr, idx, key) == <<tr, idx, key>>
+CoefficientsDistinct(vk, s) ==
+    \A a, b \in DOMAIN s : a # b =>
+        Coef(Transcript(vk, s), s[a], vk[s[a] + 1]) # Coef(Transcript(vk, s), s[b], vk[s[b] + 1])
+
 (* ------------------------- the property (C14) -------------------------- *)
 Honest(c) == c.sig = "Good" /\ c.vs = c.ss /\ c.vmsg = "same" /\ c.vkeys.op = "same"
 
@@ -78,7 +94,8 @@ DesignInv(c) ==
     /\ AggVerifyOK(c) => (c.vs = c.ss /\ StrictInc(c.vs) /\ c.vmsg = "same" /\ c.sig = "Good")
     /\ (SignOK(c) /\ Honest(c)) => AggVerifyOK(c)
     /\ (SeqSet(c.ss) # SeqSet(c.vs)) => ~AggVerifyOK(c)          \* subset / superset never verifies
-    /\ (c.sig \in {"Rogue", "RogueW", "Plain"}) => ~AggVerifyOK(c)
+    /\ (c.sig \in {"Rogue", "RogueW", "RogueC", "Plain"}) => ~AggVerifyOK(c)
+    /\ (SignOK(c) => CoefficientsDistinct([k \in 1 .. c.n |-> k - 1], c.ss))
     /\ (AggVerifyOK(c) /\ c.vkeys.op \in {"swap", "replace"})    \* only keys of non-signers may change
           => (c.vkeys.i \notin SeqSet(c.ss) /\ (c.vkeys.op = "swap" => c.vkeys.j \notin SeqSet(c.ss)))
 =============================================================================
